@@ -804,7 +804,7 @@ func Compare(exp *Response, act *Actual, withCalls bool) []Diff {
 	for _, e := range exp.Errs {
 		found := false
 		for _, a := range act.Errs {
-			if hasPrefix(a.Path, e.Path) && (e.Name == "" || e.Class == "resolver" || strings.Contains(a.Msg, e.Name)) {
+			if hasPrefix(a.Path, e.Path) && (e.Name == "" || e.Class == "resolver" || strings.Contains(a.Msg, e.Name) || namedByPath(a.Path[len(e.Path):], e.Name)) {
 				found = true
 			}
 		}
@@ -836,6 +836,16 @@ func Compare(exp *Response, act *Actual, withCalls bool) []Diff {
 		}
 	}
 	return ds
+}
+
+// namedByPath: the error addresses the offender by a path element below the selection (an argument name).
+func namedByPath(rest []string, name string) bool {
+	for _, el := range rest {
+		if el == "k:"+name {
+			return true
+		}
+	}
+	return false
 }
 
 func hasPrefix(p, prefix []string) bool {
